@@ -65,6 +65,29 @@ def layouts() -> Tuple[List[Tuple[str, str, int, int, int]], List[Tuple[int, int
     return rows, distinct
 
 
+def key_letters(tree: ast.AST) -> Tuple[List[Tuple[str, int]], List[Tuple[str, str, str]]]:
+    """send_newkeys: (variable, letter) of every `x = self._kex.compute_key(k, h, b'L', ...)` in source order, and
+    (cipher variable, key variable, mac-key variable) of every `next_enc_* = get_encryption(alg, key, iv, mac_alg,
+    mac_key, etm)`; plus which of them the client sends with."""
+    fn = T.find_def(tree, 'SSHConnection.send_newkeys')
+    letters: List[Tuple[str, int]] = []
+    encs: List[Tuple[str, str, str]] = []
+    for n in ast.walk(fn):
+        if isinstance(n, ast.Assign) and len(n.targets) == 1 and isinstance(n.targets[0], ast.Name) and \
+                isinstance(n.value, ast.Call):
+            src = ast.unparse(n.value.func)
+            if src.endswith('compute_key') and len(n.value.args) >= 3 and isinstance(n.value.args[2], ast.Constant) \
+                    and isinstance(n.value.args[2].value, bytes) and len(n.value.args[2].value) == 1:
+                letters.append((n.targets[0].id, n.value.args[2].value[0]))
+            elif src == 'get_encryption' and len(n.value.args) >= 5:
+                a = [ast.unparse(x) for x in n.value.args]
+                encs.append((n.targets[0].id, a[1], a[2], a[4]))      # type: ignore
+    if len(letters) != 6 or len(encs) != 2:
+        raise T.Untranslatable('send_newkeys: expected six compute_key assignments and two get_encryption calls')
+    letters.sort(key=lambda x: x[0])
+    return letters, sorted(encs)       # type: ignore
+
+
 def generate(prop: str) -> Dict[str, Any]:
     src = T.read_source('asyncssh/connection.py')
     tree = ast.parse(src)
@@ -84,6 +107,13 @@ def generate(prop: str) -> Dict[str, Any]:
     out += '/-- every (cipher, MAC) pair with its layout, for the record -/\n'
     out += 'def pairs : List (String × String × Nat × Nat × Nat) :=\n  ' + \
         T.lean_list([f'({T.lean_str(e)}, {T.lean_str(m)}, {a}, {b}, {c})' for e, m, a, b, c in rows]) + '\n\n'
+    letters, encs = key_letters(tree)
+    out += '/-- `send_newkeys`: the letter each of the six keys is derived with (RFC 4253 7.2), by variable name -/\n'
+    out += 'def keyLetters : List (String × Nat) :=\n  ' + \
+        T.lean_list([f'({T.lean_str(v)}, {c})' for v, c in letters]) + '\n\n'
+    out += '/-- `send_newkeys`: (cipher object, key, iv, MAC key) handed to `get_encryption` -/\n'
+    out += 'def cipherKeys : List (String × String × String × String) :=\n  ' + \
+        T.lean_list([f'({T.lean_str(a)}, {T.lean_str(b)}, {T.lean_str(c)}, {T.lean_str(d)})' for a, b, c, d in encs]) + '\n\n'
     out += f'end AsyncsshModel.Gen.{prop}\n'
     changed = vlib.write_if_changed(vlib.module_path(f'AsyncsshModel.Gen.{prop}'), out)
     return {'gen_file': f'Gen/{prop}.lean', 'changed': changed, 'pairs': len(rows), 'layouts': len(distinct) + 1}
